@@ -21,6 +21,17 @@ open Replicat Replicat.Repo Replicat.CacheCmd Replicat.P18 List
 /-- the regenerated flag: the cached copy is compared with the expected digest before use -/
 theorem cacheVerified_holds : Gen.cacheVerified = true := by decide
 
+/-- the regenerated shape of the cache code the model mirrors: the cache is read and written only in
+`_download_snapshot_threadsafe`, which `_load_snapshots` calls only for paths of the backend listing; the store happens after the
+downloaded bytes were verified; `delete_snapshots` unlinks the entries of the snapshots it deletes; no other method knows the
+cache directory. -/
+theorem cache_shape_holds :
+    Gen.cacheReadSites = ["_download_snapshot_threadsafe"] ∧ Gen.cacheStoreSites = ["_download_snapshot_threadsafe"] ∧
+    Gen.cacheDirSites = ["__init__", "_delete_cached", "_download_snapshot_threadsafe", "_get_cached", "_store_cached",
+      "delete_objects", "delete_snapshots"] ∧
+    Gen.cacheLoadOverListing = true ∧ Gen.cacheStoreAfterVerify = true ∧ Gen.deleteEvictsCache = true ∧
+    Gen.cacheSectionOk = true := by decide
+
 /-- **Loading is independent of the cache.**  For EVERY cache content — absent, valid, `blob` (empty / any proper prefix /
 garbage), another snapshot's or another repository's bytes, stale entries — `_load_snapshots` returns what it returns with the
 cache disabled. -/
